@@ -274,8 +274,20 @@ func h2h3(w *World, r *Report, name string) {
 	wantSB := "types." + signBytesFn + "(p0, p1)"
 	wantStep := map[string]string{"signVote": "crypto.voteToStep(p1)", "signProposal": "1"}[name]
 	// is v the signer's last-sign state (its address, or a local copy initialised from it)?
-	lssKind := func(v ssa.Value) string {
+	var lssKind func(v ssa.Value) string
+	lssKind = func(v ssa.Value) string {
 		v = stripConv(v)
+		// a parameter of a helper that is being expanded: the argument it is bound to
+		if pr, isP := v.(*ssa.Parameter); isP && pr.Parent() != fn {
+			for i := len(w.inlineEnv) - 1; i >= 0; i-- {
+				if s, ok := w.inlineEnv[i][pr]; ok {
+					if av, ok := w.argVal[s]; ok && av != v {
+						return lssKind(av)
+					}
+					break
+				}
+			}
+		}
 		if fa, ok := v.(*ssa.FieldAddr); ok && w.Canon(fa.X) == "recv" && fieldName(fa.X.Type(), fa.Field) == "LastSignState" {
 			return "pv"
 		}
@@ -368,7 +380,15 @@ func h2h3(w *World, r *Report, name string) {
 			}
 		case *ssa.Store:
 			fa, ok := x.Addr.(*ssa.FieldAddr)
-			if !ok || w.Canon(fa.X) != "p1" {
+			if !ok {
+				return ""
+			}
+			if w.Canon(fa.X) != "p1" {
+				// a helper's own parameter of the message's type, seen before the helper is
+				// expanded for a call: it bears an event (once expanded it prints as p1)
+				if pr, isP := fa.X.(*ssa.Parameter); isP && pr.Parent() != fn && len(fn.Params) > 2 && types.Identical(pr.Type(), fn.Params[2].Type()) && fieldName(fa.X.Type(), fa.Field) == "Signature" {
+					return "OUTX"
+				}
 				return ""
 			}
 			switch fieldName(fa.X.Type(), fa.Field) {
@@ -673,18 +693,46 @@ func h4(w *World, r *Report) {
 	}
 	sfn := needFn(r, "H-4", w, fref{pkgCrypto, "SFilePVLastSignState", "Save"})
 	if sfn != nil {
-		wr := w.callsTo(sfn, fref{"github.com/tendermint/tendermint/libs/tempfile", "", "WriteFileAtomic"})
-		ms := w.callsTo(sfn, fref{"github.com/tendermint/tendermint/libs/json", "", "MarshalIndent"}, fref{"github.com/tendermint/tendermint/libs/json", "", "Marshal"})
+		// in Save itself or in helpers it calls (marshal / write split off): read in Save's terms
+		type hosted struct {
+			c    ssa.CallInstruction
+			host *ssa.Function
+		}
+		var wr, ms []hosted
+		for _, g := range w.withModuleCallees(sfn, 1) {
+			for _, c := range w.callsTo(g, fref{"github.com/tendermint/tendermint/libs/tempfile", "", "WriteFileAtomic"}) {
+				wr = append(wr, hosted{c, g})
+			}
+			for _, c := range w.callsTo(g, fref{"github.com/tendermint/tendermint/libs/json", "", "MarshalIndent"}, fref{"github.com/tendermint/tendermint/libs/json", "", "Marshal"}) {
+				ms = append(ms, hosted{c, g})
+			}
+		}
 		if len(wr) != 1 || len(ms) != 1 {
 			r.Violate("H-4", "Save:write", fmt.Sprintf("Save() must marshal the state and write it atomically exactly once (found %d marshal, %d WriteFileAtomic calls)", len(ms), len(wr)), nil, fnSite(w, sfn))
 		} else {
-			wa := wr[0].Common().Args
-			ma := ms[0].Common().Args
-			bz := extractOf(callValue(ms[0]), 0)
-			ok := len(wa) >= 2 && w.Canon(wa[0]) == "recv.filePath" && bz != nil && sameValue(wa[1], bz) && len(ma) >= 1 && stripConv(ma[0]) == ssa.Value(sfn.Params[0])
-			r.Check(ok, "H-4", "Save:write", "Save() writes MarshalIndent(lss) to lss.filePath with WriteFileAtomic", "Save() does not atomically write the marshalled state to its own filePath", site(w, wr[0]))
+			wa := wr[0].c.Common().Args
+			ma := ms[0].c.Common().Args
+			ok := false
+			if wr[0].host == sfn && ms[0].host == sfn {
+				bz := extractOf(callValue(ms[0].c), 0)
+				ok = len(wa) >= 2 && w.Canon(wa[0]) == "recv.filePath" && bz != nil && sameValue(wa[1], bz) && len(ma) >= 1 && stripConv(ma[0]) == ssa.Value(sfn.Params[0])
+			} else {
+				okPath := len(wa) >= 2 && w.inCallerTerms(sfn, wr[0].host, func() bool { return w.Canon(wa[0]) == "recv.filePath" })
+				okObj := len(ma) >= 1 && w.inCallerTerms(sfn, ms[0].host, func() bool { return w.Canon(stripConv(ma[0])) == "recv" })
+				okBytes := false
+				if len(wa) >= 2 {
+					for _, c := range w.mayCanonsBelow(sfn, wa[1], 4) {
+						if (strings.HasPrefix(c, "json.MarshalIndent(recv") || strings.HasPrefix(c, "json.Marshal(recv")) && strings.HasSuffix(c, "#0") {
+							okBytes = true
+						}
+					}
+				}
+				ok = okPath && okObj && okBytes
+			}
+			r.Check(ok, "H-4", "Save:write", "Save() writes MarshalIndent(lss) to lss.filePath with WriteFileAtomic", "Save() does not atomically write the marshalled state to its own filePath", site(w, wr[0].c))
 			// errors panic
-			for i, call := range []ssa.CallInstruction{ms[0], wr[0]} {
+			for i, hc := range []hosted{ms[0], wr[0]} {
+				call := hc.c
 				var ev ssa.Value
 				if i == 0 {
 					ev = extractOf(callValue(call), 1)
@@ -693,7 +741,7 @@ func h4(w *World, r *Report) {
 				}
 				paniced := false
 				if ev != nil {
-					for _, b := range sfn.Blocks {
+					for _, b := range hc.host.Blocks {
 						if _, isP := lastInstr(b).(*ssa.Panic); isP {
 							if e, _ := w.underCond(b, func(c ssa.Value) bool {
 								bo, ok := c.(*ssa.BinOp)
@@ -972,6 +1020,35 @@ func (w *World) recordSummary(fn *ssa.Function) *recSummary {
 		return nil
 	}
 	sum := &recSummary{fn: fn, baseParam: bp, viaField: via, fieldParam: map[string]int{}, stores: map[string]ssa.Instruction{}, save: saves[0], nSave: len(saves)}
+	// the fields may be set by a setter of the state object that fn hands its own
+	// parameters to (`state.setLastSigned(h, r, s, bytes, sig)`): the setter's call
+	// stands for the stores, its parameters are read as fn's
+	for _, hc := range CallsIn(fn) {
+		g := hc.Common().StaticCallee()
+		if g == nil || !w.InModule(g) || g.Blocks == nil || g.Signature.Recv() == nil || len(hc.Common().Args) != len(g.Params) || g.Name() == "Save" {
+			continue
+		}
+		i, v, ok := root(hc.Common().Args[0])
+		if !ok || i != bp || v != via || !instrDominates(hc, saves[0]) {
+			continue
+		}
+		for _, fs := range w.fieldStores(g) {
+			fa := fs.Addr.(*ssa.FieldAddr)
+			if stripConv(fa.X) != ssa.Value(g.Params[0]) {
+				continue
+			}
+			sum.stores[fs.Field.Name()] = hc
+			if gp, isP := stripConv(fs.Val).(*ssa.Parameter); isP {
+				if gi, ok := paramIndexRaw(g, gp); ok {
+					if fp, isFP := stripConv(hc.Common().Args[gi]).(*ssa.Parameter); isFP {
+						if pi, ok := paramIndexRaw(fn, fp); ok {
+							sum.fieldParam[fs.Field.Name()] = pi
+						}
+					}
+				}
+			}
+		}
+	}
 	for _, fs := range w.fieldStores(fn) {
 		fa := fs.Addr.(*ssa.FieldAddr)
 		i, v, ok := root(fa.X)
